@@ -28,6 +28,19 @@ func VH_C07_Claim() {
 		t := res.ClaimTask.Task
 		vx.Assert(vx.And(t.Id == id, int64(t.State) == 4, t.Counter == counter, *t.ProcessId == pid, t.Ttl == ttl, t.ExpiresAt == vx.YieldTime(1)+int64(ttl),
 			t.RootPromiseId == post.Str("root_promise_id"), t.Timeout == post.Int("timeout")), "claim-response")
+		// C01: the promises carried in the claim payload are the stored rows (state, value, completion fields
+		// included) as of the payload's read, and they are the promises the task's message names
+		if vx.NYields() > 2 {
+			read := vx.YieldPre(2)
+			if rp := res.ClaimTask.RootPromise; rp != nil {
+				vx.Assert(vx.And(rp.Id == t.Mesg.Root, vhBodyIsRow(rp, vx.Lookup(read, "promises", rp.Id))), "C01:claim-payload-root-is-row")
+			} else {
+				vx.Assert(!vx.Lookup(read, "promises", t.Mesg.Root).Present(), "C01:claim-payload-root-absent-only-if-no-row")
+			}
+			if lp := res.ClaimTask.LeafPromise; lp != nil {
+				vx.Assert(vx.And(lp.Id == t.Mesg.Leaf, vhBodyIsRow(lp, vx.Lookup(read, "promises", lp.Id))), "C01:claim-payload-leaf-is-row")
+			}
+		}
 		return
 	}
 	vx.Reach("refused")
